@@ -104,8 +104,13 @@ class Gen:
             return "new-header"
         if k < 88:      # proposed header replaced at equal count
             if v["phs"]:
+                i = rng.below(len(v["phs"]))
+                if rng.chance(1, 2):
+                    # the SAME block proposed again by someone else (same header and block hash, another signature)
+                    v["phs"][i] = v["phs"][i] + 1000000
+                    return "replace-header-by-twin"
                 st["next_ph"] += 1
-                v["phs"][rng.below(len(v["phs"]))] = st["next_ph"]
+                v["phs"][i] = st["next_ph"]
                 return "replace-header"
             return "none"
         if k < 92:      # header removed + another added elsewhere / reorder
